@@ -386,12 +386,16 @@ def run_int_cfg(
             it = getattr(stmt, "iter", None)
             tgt = getattr(stmt, "target", None)
             limit = None
+            backwards = False
+            if isinstance(it, ast.Call) and isinstance(it.func, ast.Name) and it.func.id == "reversed" and len(it.args) == 1:
+                it, backwards = it.args[0], True
             if isinstance(it, ast.Call) and isinstance(it.func, ast.Name) and it.func.id == "range" and isinstance(tgt, ast.Name):
                 try:
                     rargs = [int_eval(a, atoms) for a in it.args]
                     key_ = ("range", node.id)
                     if key_ not in range_iters:
-                        range_iters[key_] = iter(range(*rargs))
+                        rng = range(*rargs)
+                        range_iters[key_] = iter(reversed(rng) if backwards else rng)
                     limit = range_iters[key_]
                 except Unevaluable:
                     limit = None
